@@ -2,12 +2,16 @@
 
 * `Stepper`: `solvermodel.ModelStepper` whose whitened-RMS normalisation is computed by the Lean model
   (`cal_rms2` -> `Calib.rms2` with `Factorisation.rmsSize`) instead of on the Python side;
-* `raw_fixed_grid`: the scan of `solve_fixed_grid` without `userfriendly_output` (all un-calibrated per-step states);
-* `jit_fixed_grid`, `jit_save_at`: the real solvers, jitted once per configuration (the prior - including its base
-  output scale - is an argument, so different base scales reuse the compiled function);
-* `adaptive_replica`: `solve_adaptive_save_at` re-assembled from the public pieces of `RejectionLoop`
+* `Runner`: all real entry points of one (configuration, field), jitted once: `solve_fixed_grid`, the same scan
+  without `userfriendly_output` (all un-calibrated per-step states), `solve_adaptive_save_at`.  The prior is
+  constructed by the real constructor *inside* the jitted function from (Taylor coefficients, base scale), so that
+  other initial values and base scales reuse the compilation (an eagerly constructed prior carries fresh closures in
+  its pytree aux data and forces a re-trace; eager construction also costs 2-3 s);
+* `Replica`: `solve_adaptive_save_at` re-assembled from the public pieces of `RejectionLoop`
   (`step_init_loopstate`, `step_attempt`, `step_extract_timestep_state`, `interp_*`) with native Python loops, which
-  exposes every attempted / accepted step with the exact `dt` it used.
+  exposes every attempted / accepted step with the exact `dt` it used;
+* float noise scales for comparing two float runs: `mean_noise*` (gain x residual summands), `kappa_q` (conditioning of
+  the backward pass), `phi_q`.
 """
 
 from __future__ import annotations
@@ -17,7 +21,7 @@ from fractions import Fraction
 
 import numpy as np
 
-from harness import core, gen, problems
+from harness import gen, problems
 from harness import solvermodel as sm
 from harness.core import F
 
